@@ -70,7 +70,7 @@ DonateNext(s, u, x) == [s EXCEPT !.bal = @ ++ x, !.w = [@ EXCEPT ![u] = @ -- x]]
 Ok(s) == [ok |-> TRUE, s |-> s]
 Fail(s) == [ok |-> FALSE, s |-> s]
 
-\* a script atom is a record with field a \in {"repay","fail","nothing","deposit","withdraw","collect","loan","fcb"}
+\* a script atom is a record with field a \in {"repay","fail","nothing","deposit","withdraw","collect","loan","fcb","pause"}
 \* ("fcb": the borrower sends the vault a forged Callback(AfterTrade) of its own - the callback is the vault's message to
 \*  itself and must be refused from anybody else, loan in flight or not, which fails the borrower's whole transaction)
 RECURSIVE RunScript(_, _, _), RunLoan(_, _, _)
@@ -89,6 +89,12 @@ RunAtom(s, at, target) ==
   CASE at.a = "nothing" -> Ok(s)
     [] at.a = "fail" -> Fail(s)
     [] at.a = "fcb" -> Fail(s)
+    \* "pause": the borrower sets the vault's pause switches - the owner's message; it fails the transaction unless the
+    \* vault has been handed to the borrower contract (s.own); it changes nothing but the switches
+    [] at.a = "pause" ->
+         IF ~s.own THEN Fail(s)
+         ELSE LET pick(x, cur) == IF x = "none" THEN cur ELSE x = "on" IN
+              Ok([s EXCEPT !.tog = [d |-> pick(at.d, s.tog.d), w |-> pick(at.w, s.tog.w), l |-> pick(at.l, s.tog.l)]])
     [] at.a = "repay" ->
          IF (at.x = Zero /\ ZeroFails(s)) \/ s.aw \prec at.x THEN Fail(s)
          ELSE IF target = "vault" THEN Ok([s EXCEPT !.aw = @ -- at.x, !.bal = @ ++ at.x])
@@ -102,7 +108,8 @@ RunAtom(s, at, target) ==
          IF ~s.tog.w \/ s.lp["adv"] \prec at.x \/ s.S = Zero \/ s.bal \prec s.fee THEN Fail(s)
          ELSE LET paid == ImplPaid(s, at.x) IN
               IF paid = Zero /\ ZeroFails(s) THEN Fail(s) ELSE Ok(WithdrawNext(s, "adv", at.x, paid))
-    [] at.a = "collect" -> Ok(CollectNext(s, s.fee))     \* nothing is sent when nothing is pending
+    \* nothing is sent when nothing is pending; inside a loan the vault may hold less than it owes the collector: the transfer fails
+    [] at.a = "collect" -> IF s.bal \prec s.fee THEN Fail(s) ELSE Ok(CollectNext(s, s.fee))
     [] at.a = "loan" -> RunLoan(s, at.x, at.sub)
 
 RunScript(s, script, target) ==
